@@ -52,6 +52,7 @@ CInit(cf, active) ==
       sc03   |-> TRUE,       \* C03 quantifier (no G28 / G92 XYZ / M206 in an open episode)
       scE    |-> TRUE,       \* C05 quantifier (matched cycles of one kind)
       scM    |-> TRUE,       \* C04 quantifier (matched cycles, E-only or firmware; with eabsOK)
+      virgin |-> TRUE,       \* no command has been filtered since the tracking state was reset
       eabsOK |-> TRUE,       \* the extruder has been in absolute mode throughout
       gr     |-> 0,          \* ghost retraction cycle: 0 none, n > 0 E-only amount, -1 firmware
       gk     |-> "n",        \* retraction kind used so far: n(one) e(-only) f(irmware)
@@ -331,7 +332,7 @@ GStepActive(cs, ev, q, tol) ==
            !.posOK = posOK1, !.sc03 = sc03_1, !.scE = scE1, !.scM = scM1, !.eabsOK = eabsOK1,
            !.shifted = shifted1,
            !.gr = cyc.gr, !.gk = cyc.gk, !.ga = cyc.ga, !.maxret = maxret1, !.g10p = g10p1,
-           !.led = led1,
+           !.led = led1, !.virgin = FALSE,
            !.cnt = [cs.cnt EXCEPT
                       !.open = @ + (IF opening THEN 1 ELSE 0),
                       !.closeMove = @ + (IF closing THEN 1 ELSE 0),
@@ -451,7 +452,8 @@ NotesOK(notes, before, after) ==
 ResetTracking(cs) ==
     [cs EXCEPT !.ph = P0, !.gh = P0, !.en = TRUE, !.ep = FALSE, !.clean = TRUE,
                !.posOK = TRUE, !.shifted = FALSE, !.sc03 = TRUE, !.scE = TRUE, !.scM = TRUE, !.eabsOK = TRUE,
-               !.gr = 0, !.gk = "n", !.ga = 0, !.maxret = 0, !.g10p = "", !.led = <<>>]
+               !.gr = 0, !.gk = "n", !.ga = 0, !.maxret = 0, !.g10p = "", !.led = <<>>,
+               !.virgin = TRUE]
 
 EndEvents == {"PrintDone", "PrintFailed", "PrintCancelling", "PrintCancelled", "Error"}
 
@@ -471,6 +473,8 @@ PevStep(cs, ev) ==
               ELSE cs
         checks == <<
           <<"C11", "C11.regions_after_event", SameList(ev.rl, regs1)>>,
+          \* the job is active from print-started to an end event, whatever else happens
+          <<"C11", "C11.active", ev.pst.active = c1.active>>,
           <<"C13", "C13.event_notification", NotesOK(ev.notes, cs.regs, regs1) /\ ev.nx>>,
           <<"C13", "C13.unique_ids", UniqueIds(ev.rl)>> >>
     IN  [c1 EXCEPT !.n = n, !.regs = regs1, !.v = Judge(cs.v, checks, 1, n, "")]
@@ -495,7 +499,9 @@ HookStep(cs, ev, q, tol) ==
         tag == IF cs.shifted THEN "g92xyz" ELSE ""
         checks == <<
           <<"C09", "C09.noraise", ev.res # "exc">>,
-          <<"C15", "C15.nothing", (~closing /\ (mon \/ ~cs.active \/ ~isAfter)) => nout = 0>>,
+          \* (virgin: right after a reset nothing can be open, homed or not)
+          <<"C15", "C15.nothing",
+             (~closing /\ (mon \/ cs.virgin \/ ~cs.active \/ ~isAfter)) => nout = 0>>,
           <<"C11", "C11.idle_hook", (~cs.active) => nout = 0>>,
           <<"C15", "C15.flush", (mon /\ closing) => FlushOK(cs.led, cf.exit, outs)>>,
           <<"C06", "C06.flush", (mon /\ closing) => FlushOK(cs.led, cf.exit, outs)>>,
